@@ -1,7 +1,7 @@
 (* EngineProofs.v — proofs about Engine.v: C01 (reads return the latest acknowledged write
    through every layer) and C08 (sequence numbers strictly increase). *)
 From Coq Require Import Lia ZifyN ZifyNat ZifyBool Sorted Permutation.
-From KV Require Import Bytes Spec Memtable WalCodec Engine.
+From KV Require Import Bytes Spec Memtable MemtableProofs WalCodec Engine.
 Open Scope N_scope.
 (* Bytes re-exports List, whose [find] shadows the memtable's *)
 Local Notation find := Memtable.find.
@@ -122,61 +122,17 @@ Proof. intros. apply last_last. Qed.
 Lemma concat_snoc_nil : forall (A : Type) (l : list (list A)), concat (l ++ [[]]) = concat l.
 Proof. intros. rewrite concat_app. cbn [concat]. rewrite !app_nil_r. reflexivity. Qed.
 
-(* --- bcmp --- *)
-Lemma bcmp_eq : forall a b, bcmp a b = Eq -> a = b.
-Proof.
-  induction a as [|x a IH]; intros [|y b] H; cbn [bcmp] in H; try discriminate; [reflexivity|].
-  destruct (N.compare x y) eqn:E; try discriminate.
-  apply N.compare_eq_iff in E. subst. f_equal. apply IH. exact H.
-Qed.
-
-Lemma bcmp_refl : forall a, bcmp a a = Eq.
-Proof. induction a as [|x a IH]; cbn [bcmp]; [reflexivity|]. rewrite N.compare_refl. exact IH. Qed.
-
-Lemma bcmp_antisym : forall a b, bcmp b a = CompOpp (bcmp a b).
-Proof.
-  induction a as [|x a IH]; intros [|y b]; cbn [bcmp]; try reflexivity.
-  rewrite (N.compare_antisym x y). destruct (N.compare x y); cbn [CompOpp]; auto.
-Qed.
-
-Lemma bcmp_lt_trans : forall a b c, bcmp a b = Lt -> bcmp b c = Lt -> bcmp a c = Lt.
-Proof.
-  induction a as [|x a IH]; intros [|y b] [|z c] H1 H2; cbn [bcmp] in *; try congruence.
-  destruct (N.compare_spec x y) as [E1|E1|E1]; try discriminate;
-  destruct (N.compare_spec y z) as [E2|E2|E2]; try discriminate; subst.
-  - rewrite N.compare_refl. eapply IH; eassumption.
-  - apply N.compare_lt_iff in E2. rewrite E2. reflexivity.
-  - apply N.compare_lt_iff in E1. rewrite E1. reflexivity.
-  - assert (E : x < z) by lia. apply N.compare_lt_iff in E. rewrite E. reflexivity.
-Qed.
-
-Lemma bcmp_gt_lt : forall a b, bcmp a b = Gt <-> bcmp b a = Lt.
-Proof.
-  intros a b. rewrite (bcmp_antisym a b). destruct (bcmp a b); cbn [CompOpp]; split; congruence.
-Qed.
-
-Lemma beq_true : forall a b, beq a b = true <-> a = b.
-Proof.
-  intros a b. unfold beq. split.
-  - destruct (bcmp a b) eqn:E; try discriminate. intros _. apply bcmp_eq. exact E.
-  - intros ->. rewrite bcmp_refl. reflexivity.
-Qed.
-
-Lemma beq_refl : forall a, beq a a = true.
-Proof. intros. apply beq_true. reflexivity. Qed.
-
+(* --- bcmp: the order lemmas come from MemtableProofs (bcmp_eq, bcmp_refl, bcmp_gt_lt,
+   bcmp_lt_trans, beq_true_iff, beq_refl) --- *)
 Lemma beq_false_lt : forall a b, bcmp a b = Lt -> beq a b = false.
 Proof. intros a b H. unfold beq. rewrite H. reflexivity. Qed.
 Lemma beq_false_gt : forall a b, bcmp a b = Gt -> beq a b = false.
 Proof. intros a b H. unfold beq. rewrite H. reflexivity. Qed.
 
 (* ------------------------------------------------------------------------------------ *)
-(* Part B: the memtable: Find after a sequence of inserts                                  *)
+(* Part B: the memtable: Find after a sequence of inserts in sequence-number order         *)
+(* (build, build_in, build_snoc, find_build, latest_version are MemtableProofs')            *)
 (* ------------------------------------------------------------------------------------ *)
-
-Definition build_from (l0 : list mentry) (seg : list mentry) : list mentry :=
-  fold_left (fun l e => insert e l) seg l0.
-Definition build (seg : list mentry) : list mentry := build_from [] seg.
 
 (* the last entry of seg (insertion order) with key k *)
 Fixpoint last_with (k : bytes) (seg : list mentry) : option mentry :=
@@ -201,107 +157,41 @@ Proof.
   intros k seg. induction seg as [|x r IH]; intros H e []; cbn [last_with] in H.
   - subst x. destruct (last_with k r); [discriminate|].
     destruct (beq (mk e) k) eqn:B; [discriminate|].
-    intros E. apply beq_true in E. congruence.
+    intros E. apply beq_true_iff in E. congruence.
   - destruct (last_with k r); [discriminate|]. apply IH; auto.
 Qed.
 
-Lemma insert_in : forall e l x, In x (insert e l) <-> x = e \/ In x l.
+Lemma last_with_in : forall k seg e, last_with k seg = Some e -> In e seg /\ mk e = k.
 Proof.
-  intros e l x. induction l as [|y r IH]; cbn [insert].
-  - cbn [In]. intuition.
-  - destruct (elt y e); cbn [In]; [rewrite IH|]; intuition.
+  intros k seg e. induction seg as [|x r IH]; cbn [last_with]; [discriminate|].
+  destruct (last_with k r) as [y|].
+  - intros E. destruct (IH E). split; [right|]; assumption.
+  - destruct (beq (mk x) k) eqn:B; [|discriminate]. intros E. injection E as <-.
+    split; [left; reflexivity|]. apply beq_true_iff. exact B.
 Qed.
-
-Lemma build_from_in : forall seg l0 x, In x (build_from l0 seg) <-> In x l0 \/ In x seg.
-Proof.
-  unfold build_from. induction seg as [|e r IH]; intros l0 x; cbn [fold_left In].
-  - intuition.
-  - rewrite IH, insert_in. intuition.
-Qed.
-
-Lemma build_in : forall seg x, In x (build seg) <-> In x seg.
-Proof. intros. unfold build. rewrite build_from_in. cbn [In]. intuition. Qed.
 
 Lemma build_from_app : forall l0 a b, build_from l0 (a ++ b) = build_from (build_from l0 a) b.
 Proof. intros. unfold build_from. apply fold_left_app. Qed.
 
-Lemma build_snoc : forall seg e, build (seg ++ [e]) = insert e (build seg).
-Proof. intros. unfold build. rewrite build_from_app. reflexivity. Qed.
-
-Lemma best_of_run_keep : forall k c l,
-  Forall (fun x => mseq x <= mseq c) l -> best_of_run k c l = c.
-Proof.
-  intros k c l. induction l as [|x r IH]; intros H; cbn [best_of_run]; [reflexivity|].
-  inversion H as [|? ? Hx Hr]; subst.
-  destruct (beq (mk x) k); [|reflexivity].
-  assert (E : (mseq c <? mseq x) = false) by lia. rewrite E. apply IH. exact Hr.
-Qed.
-
-Lemma best_of_run_insert_gt : forall k e c l,
-  bcmp k (mk e) = Lt -> best_of_run k c (insert e l) = best_of_run k c l.
-Proof.
-  intros k e c l Hlt. revert c. induction l as [|y r IH]; intros c; cbn [insert].
-  - cbn [best_of_run]. rewrite beq_false_gt; [reflexivity|]. apply bcmp_gt_lt. exact Hlt.
-  - destruct (elt y e) eqn:El.
-    + cbn [best_of_run]. destruct (beq (mk y) k); [apply IH|reflexivity].
-    + cbn [best_of_run].
-      rewrite (beq_false_gt (mk e) k) by (apply bcmp_gt_lt; exact Hlt).
-      destruct (beq (mk y) k) eqn:B; [|reflexivity].
-      apply beq_true in B. unfold elt in El. rewrite B, Hlt in El. discriminate.
-Qed.
-
-(* Find after inserting an entry whose sequence number is not below any already present *)
-Lemma find_insert : forall k e l,
-  Forall (fun x => mseq x <= mseq e) l ->
-  find k (insert e l) = if beq (mk e) k then Some e else find k l.
-Proof.
-  intros k e l. induction l as [|x r IH]; intros Hall.
-  - cbn [insert find]. unfold beq. destruct (bcmp (mk e) k); reflexivity.
-  - inversion Hall as [|? ? Hx Hr]; subst. cbn [insert].
-    destruct (elt x e) eqn:El.
-    + (* x stays in front: key x < key e *)
-      assert (Hlt : bcmp (mk x) (mk e) = Lt).
-      { unfold elt in El. destruct (bcmp (mk x) (mk e)); [|reflexivity|discriminate].
-        exfalso. lia. }
-      cbn [find]. destruct (bcmp (mk x) k) eqn:Ck.
-      * apply bcmp_eq in Ck. subst k.
-        rewrite best_of_run_insert_gt by exact Hlt.
-        rewrite (beq_false_gt (mk e) (mk x)) by (apply bcmp_gt_lt; exact Hlt). reflexivity.
-      * apply IH. exact Hr.
-      * assert (G : bcmp (mk e) k = Gt).
-        { apply bcmp_gt_lt. apply bcmp_gt_lt in Ck. eapply bcmp_lt_trans; eassumption. }
-        rewrite (beq_false_gt _ _ G). reflexivity.
-    + (* e goes in front *)
-      change (find k (e :: x :: r)) with
-        (match bcmp (mk e) k with
-         | Lt => find k (x :: r) | Eq => Some (best_of_run k e (x :: r)) | Gt => None end).
-      unfold beq. destruct (bcmp (mk e) k) eqn:Ck.
-      * rewrite best_of_run_keep by exact Hall. reflexivity.
-      * reflexivity.
-      * (* key x >= key e > k *)
-        cbn [find].
-        assert (G : bcmp (mk x) k = Gt).
-        { unfold elt in El. destruct (bcmp (mk x) (mk e)) eqn:Cx; [|discriminate|].
-          - apply bcmp_eq in Cx. rewrite Cx. exact Ck.
-          - apply bcmp_gt_lt. apply bcmp_gt_lt in Ck, Cx. eapply bcmp_lt_trans; eassumption. }
-        rewrite G. reflexivity.
-Qed.
-
 Definition seq_le (a b : mentry) : Prop := mseq a <= mseq b.
 
-(* find_build: with insertions in non-decreasing sequence order, Find returns the last
-   inserted entry with the key (= greatest sequence number, last inserted on ties) *)
-Lemma find_build : forall k seg,
-  StronglySorted seq_le seg -> find k (build seg) = last_with k seg.
+(* with insertions in non-decreasing sequence order the latest version is the last inserted *)
+Lemma latest_version_sorted : forall k seg,
+  StronglySorted seq_le seg -> latest_version k seg = last_with k seg.
 Proof.
   intros k seg. induction seg as [|e seg IH] using rev_ind; intros Hs; [reflexivity|].
   apply SS_app in Hs. destruct Hs as (H1 & _ & H3).
-  rewrite build_snoc, find_insert.
-  - rewrite last_with_app. cbn [last_with].
-    destruct (beq (mk e) k); [reflexivity|]. apply IH. exact H1.
-  - rewrite Forall_forall. intros x Hx. apply (proj1 (build_in _ _)) in Hx.
-    apply (H3 x e Hx). left. reflexivity.
+  rewrite latest_version_snoc, last_with_app, IH by exact H1. cbn [last_with]. unfold pick.
+  destruct (beq (mk e) k); [|destruct (last_with k seg); reflexivity].
+  destruct (last_with k seg) as [c|] eqn:L; [|reflexivity].
+  apply last_with_in in L. destruct L as [Hc _].
+  specialize (H3 c e Hc (or_introl eq_refl)). unfold seq_le in H3.
+  assert (E : (mseq e <? mseq c) = false) by lia. rewrite E. reflexivity.
 Qed.
+
+Lemma find_build_sorted : forall k seg,
+  StronglySorted seq_le seg -> find k (build seg) = last_with k seg.
+Proof. intros k seg Hs. rewrite find_build. apply latest_version_sorted. exact Hs. Qed.
 
 (* ------------------------------------------------------------------------------------ *)
 (* Part C: histories, the invariant, reads under the invariant                             *)
@@ -446,7 +336,7 @@ Lemma last_effect_none : forall k l, last_effect k l = None -> forall p, In p l 
 Proof.
   intros k l. induction l as [|[k' v] r IH]; intros H p []; cbn [last_effect] in H.
   - subst p. cbn [fst]. destruct (last_effect k r); [discriminate|].
-    destruct (beq k' k) eqn:B; [discriminate|]. intros E. apply beq_true in E. congruence.
+    destruct (beq k' k) eqn:B; [discriminate|]. intros E. apply beq_true_iff in E. congruence.
   - destruct (last_effect k r); [discriminate|]. apply IH; auto.
 Qed.
 
@@ -463,7 +353,7 @@ Lemma mt_get_build : forall m seg k,
   mt_entries m = build seg -> StronglySorted seq_le seg ->
   mt_get m k = last_effect k (map eff seg).
 Proof.
-  intros m seg k Hm Hs. unfold mt_get. rewrite Hm, find_build by exact Hs.
+  intros m seg k Hm Hs. unfold mt_get. rewrite Hm, find_build_sorted by exact Hs.
   rewrite last_effect_last_with. destruct (last_with k seg); reflexivity.
 Qed.
 
@@ -791,7 +681,7 @@ Lemma flush_spec : forall s,
   let s' := flush s in
   cfg s' = cfg s /\ wal_next s' = wal_next s /\ concat (wal_files s') = concat (wal_files s) /\
   last_seq s' = last_seq s /\ active s' = active s /\ imms s' = imms s /\
-  lost_log s' = lost_log s /\ incl (pending s') (pending s) /\
+  lost_log s' = lost_log s /\ pending s' = [] /\
   map s_entries (ssts s') =
     map s_entries (ssts s) ++ flat_map (fun m => opt_table (flushed_entries m)) (flush_tabs s).
 Proof.
@@ -801,12 +691,12 @@ Proof.
         as (G1 & G2 & G3 & G4 & G5 & G6 & G7 & G8 & G9 & G10).
       rewrite G1, G2, G3, G4, G5, G6, G7, G9, G10. unfold rotate, upd_wal; proj.
       rewrite concat_snoc_nil, P. cbn [flat_map]. rewrite app_nil_r.
-      repeat split; try reflexivity. apply incl_refl.
-    + cbn [flat_map]. rewrite app_nil_r, P. repeat split; try reflexivity. apply incl_refl.
+      repeat split; reflexivity.
+    + cbn [flat_map]. rewrite app_nil_r, P. repeat split; reflexivity.
   - destruct (fold_flush_table_spec (p :: ps) (rotate (clear_pending s)))
       as (G1 & G2 & G3 & G4 & G5 & G6 & G7 & G8 & G9 & G10).
     rewrite G1, G2, G3, G4, G5, G6, G7, G9, G10. unfold rotate, upd_wal, clear_pending; proj.
-    rewrite concat_snoc_nil. repeat split; try reflexivity. intros x [].
+    rewrite concat_snoc_nil. repeat split; reflexivity.
 Qed.
 
 Lemma flush_tabs_incl : forall s, incl (flush_tabs s) (active s :: pending s).
@@ -879,7 +769,7 @@ Proof.
   - exact (inv_last s h I).
   - exact (inv_next s h I).
   - exact (inv_active_mut s h I).
-  - eapply incl_tran; [exact G8|exact (inv_pending s h I)].
+  - rewrite G8. intros x [].
   - intros Hl. rewrite G9. apply Forall_app. split; [exact (inv_ssts s h I Hl)|].
     rewrite Forall_forall. intros l Hlin. apply in_flat_map in Hlin.
     destruct Hlin as (m & Hm & Hlm). unfold opt_table in Hlm.
@@ -1261,3 +1151,238 @@ Proof.
   intros c ops k Hl. rewrite (get_inv _ _ k (Inv_run c ops) Hl).
   unfold run in Hl. rewrite (epoch_snd ops (init c) [] Hl). reflexivity.
 Qed.
+
+(* a program with several keys, an overwrite after a flush, deletes, batches and a
+   transaction with repeated keys, reopens, and a table size that forces scheduled flushes *)
+Module C01_example.
+  Definition k1 : bytes := [1]. Definition k2 : bytes := [2]. Definition k3 : bytes := [1;0].
+  Definition k4 : bytes := [7;7].
+  Definition cfg0 := mkCfg 40 10.
+  Definition prog : list op :=
+    [OPut k1 [11]; OPut k2 [12]; OPut k3 [13]; OFlush; OPut k1 [14]; ODel k2;
+     OBatch [(k2, Some [15]); (k3, None); (k2, Some [16]); (k4, Some [17])]; OBatch [];
+     OReopen; OPut k3 [18]; OCommit [(k1, Some [19]); (k1, Some [20]); (k4, None)];
+     OFlush; OFlush; OReopen; ODel k4; OCommit []; ORollback [(k1, None)]; OGet k1;
+     OPut k4 [21]; OFlush].
+  Example hyp : lost_log (run cfg0 prog) = false.
+  Proof. vm_compute. reflexivity. Qed.
+  Example reads :
+    map (get (run cfg0 prog)) [k1; k2; k3; k4; [9]] = [Some [20]; Some [16]; Some [18]; Some [21]; None]
+    /\ map (spec_get (acked (init cfg0) prog)) [k1; k2; k3; k4; [9]]
+       = [Some [20]; Some [16]; Some [18]; Some [21]; None].
+  Proof. vm_compute. split; reflexivity. Qed.
+  Example history : acked (init cfg0) prog =
+    [WPut k1 [11]; WPut k2 [12]; WPut k3 [13]; WPut k1 [14]; WDel k2;
+     WBatch [(k2, Some [15]); (k3, None); (k2, Some [16]); (k4, Some [17])];
+     WPut k3 [18]; WBatch [(k1, Some [20]); (k4, None)]; WDel k4; WPut k4 [21]].
+  Proof. vm_compute. reflexivity. Qed.
+End C01_example.
+
+(* ---------- corollaries ---------- *)
+
+Definition reachable (s : st) : Prop := exists c ops, s = run c ops.
+
+Lemma reachable_Inv : forall s, reachable s -> exists h, Inv s h.
+Proof. intros s (c & ops & ->). eexists. apply Inv_run. Qed.
+
+(* reads through the SSTables depend only on the tables' contents *)
+Fixpoint tabs_get (k : bytes) (tabs : list (list sentry)) : option (option bytes) :=
+  match tabs with
+  | [] => None
+  | t :: r => match sst_find k t with Some e => Some (sval e) | None => tabs_get k r end
+  end.
+
+Lemma ssts_get_tabs : forall k tables, ssts_get k tables = tabs_get k (map s_entries tables).
+Proof.
+  intros k tables. induction tables as [|t r IH]; [reflexivity|].
+  cbn [ssts_get map tabs_get]. rewrite IH. reflexivity.
+Qed.
+
+Lemma tabs_get_app : forall k a b,
+  tabs_get k (a ++ b) = match tabs_get k a with Some x => Some x | None => tabs_get k b end.
+Proof.
+  intros k a b. induction a as [|t a IH]; [reflexivity|].
+  cbn [app tabs_get]. destruct (sst_find k t); [reflexivity|exact IH].
+Qed.
+
+Lemma tabs_get_none : forall k tabs,
+  (forall l x, In l tabs -> In x l -> sk x <> k) -> tabs_get k tabs = None.
+Proof.
+  intros k tabs. induction tabs as [|t r IH]; intros H; [reflexivity|].
+  cbn [tabs_get]. destruct (sst_find k t) as [x|] eqn:F.
+  - apply sst_find_some in F. destruct F as [Hin Hk].
+    exfalso. exact (H t x (or_introl eq_refl) Hin Hk).
+  - apply IH. intros l x Hl Hx. exact (H l x (or_intror Hl) Hx).
+Qed.
+
+(* a key no memtable layer answers for was never written in this epoch *)
+Lemma mems_get_none_keys : forall s h k m e,
+  Inv s h -> mems_get k (mem_layers s) = None ->
+  In m (active s :: imms s) -> In e (mt_entries m) -> mk e <> k.
+Proof.
+  intros s h k m e I Hn Hm He. rewrite (mems_get_inv s h k I) in Hn.
+  unfold latest in Hn. rewrite <- map_eff_entries in Hn.
+  apply (last_effect_none k _ Hn (eff e)). apply in_map.
+  exact (layer_entries_in_hist s h m e I Hm He).
+Qed.
+
+Lemma get_flush_inv : forall s h k, Inv s h -> get (flush s) k = get s k.
+Proof.
+  intros s h k I.
+  destruct (flush_spec s) as (_ & _ & _ & _ & G5 & G6 & _ & _ & G9).
+  unfold get, mem_layers. rewrite G5, G6. fold (mem_layers s).
+  destruct (mems_get k (mem_layers s)) eqn:Mg; [reflexivity|].
+  rewrite !ssts_get_tabs, !map_rev, G9, rev_app_distr, tabs_get_app.
+  rewrite tabs_get_none; [reflexivity|].
+  intros l x Hl Hx. apply in_rev in Hl. apply in_flat_map in Hl. destruct Hl as (m & Hm & Hlm).
+  unfold opt_table in Hlm. destruct (nonnil (flushed_entries m)); [|contradiction].
+  destruct Hlm as [<-|[]]. apply flushed_entries_in in Hx. destruct Hx as (e & He & ->).
+  unfold to_sentry; cbn [sk]. apply (mems_get_none_keys s h k m e I Mg); [|exact He].
+  apply flush_tabs_incl in Hm. destruct Hm as [<-|Hm]; [left; reflexivity|].
+  right. apply (inv_pending s h I). exact Hm.
+Qed.
+
+(* holds in every reachable state, also after a log loss *)
+Theorem C01_flush_invariant : forall s k, reachable s -> get (flush s) k = get s k.
+Proof.
+  intros s k R. destruct (reachable_Inv s R) as (h & I). exact (get_flush_inv s h k I).
+Qed.
+
+Theorem C01_reopen_invariant : forall s k,
+  reachable s -> lost_log (reopen s) = false -> get (reopen s) k = get s k.
+Proof.
+  intros s k R Hl. destruct (reachable_Inv s R) as (h & I).
+  pose proof Hl as Hl'. rewrite lost_log_reopen in Hl'.
+  destruct (recovered s) as [[tbls maxseq]|] eqn:Rc; [|discriminate].
+  rewrite (get_inv (reopen s) h k (Inv_reopen_ok s h tbls maxseq I Rc) Hl).
+  rewrite (get_inv s h k I Hl'). reflexivity.
+Qed.
+
+Theorem C01_error_no_effect : forall s,
+  (forall k v s', put s k v = (s', WrOverflow) -> s' = s) /\
+  (forall k s', del s k = (s', WrOverflow) -> s' = s) /\
+  (forall ops s', apply_batch s ops = (s', WrOverflow) -> s' = s) /\
+  (forall ops s', tx_commit s ops = (s', WrOverflow) -> s' = s).
+Proof.
+  intros s. repeat split.
+  - intros k v s' E. rewrite put_as_batch in E. exact (apply_batch_no_effect _ _ _ E).
+  - intros k s' E. rewrite del_as_batch in E. exact (apply_batch_no_effect _ _ _ E).
+  - intros ops s' E. exact (apply_batch_no_effect _ _ _ E).
+  - intros ops s' E. rewrite tx_commit_as_batch in E. exact (apply_batch_no_effect _ _ _ E).
+Qed.
+
+(* ------------------------------------------------------------------------------------ *)
+(* T2 (C08): sequence numbers strictly increase                                           *)
+(* ------------------------------------------------------------------------------------ *)
+
+Theorem C08_monotone : forall c ops,
+  lost_log (run c ops) = false -> StronglySorted N.lt (ack_seqs (init c) ops).
+Proof.
+  intros c ops Hl. pose proof (inv_sorted _ _ (Inv_run c ops)) as S.
+  unfold run in Hl. rewrite (epoch_fst ops (init c) [] Hl) in S. exact S.
+Qed.
+
+(* also after a log loss the numbers increase strictly inside the current epoch *)
+Lemma C08_epoch_monotone : forall c ops, StronglySorted N.lt (map fst (epoch (init c) ops [])).
+Proof. intros c ops. exact (inv_sorted _ _ (Inv_run c ops)). Qed.
+
+Module C08_example.
+  Import C01_example.
+  Example seqs : ack_seqs (init cfg0) prog = [1; 2; 3; 4; 5; 6; 7; 8; 9; 10].
+  Proof. vm_compute. reflexivity. Qed.
+  Example log :
+    map (map w_seq) (wal_files (run cfg0 prog)) = [[1; 2; 3]; [4; 5; 6; 6; 6; 6; 7; 8; 8]; []; [9; 10]; []].
+  Proof. vm_compute. reflexivity. Qed.
+End C08_example.
+
+Lemma last_app_le : forall l l', StronglySorted N.lt (l ++ l') -> last l 0 <= last (l ++ l') 0.
+Proof.
+  intros l l' Hs. destruct l as [|a l0]; [cbn [last]; lia|].
+  destruct (@exists_last _ (a :: l0)) as (l1 & x & E); [discriminate|].
+  rewrite E in *. rewrite last_last. apply sorted_le_last; [exact Hs|].
+  apply in_or_app. left. apply in_or_app. right. left. reflexivity.
+Qed.
+
+Theorem C08_reported_monotone :
+  (forall c ops o, lost_log (step (run c ops) o) = false ->
+     last_seq (run c ops) <= last_seq (step (run c ops) o)) /\
+  (forall c ops, lost_log (run c ops) = false ->
+     last_seq (run c ops) = last (ack_seqs (init c) ops) 0 /\
+     last_seq (run c ops) < wal_next (run c ops)).
+Proof.
+  split.
+  - intros c ops o Hl. pose proof (Inv_run c ops) as I.
+    pose proof (Inv_step _ _ o I) as I'.
+    rewrite (inv_last _ _ I), (inv_last _ _ I').
+    pose proof (inv_sorted _ _ I') as S.
+    rewrite (step_hist_fst _ _ _ Hl) in *. apply last_app_le. exact S.
+  - intros c ops Hl. pose proof (Inv_run c ops) as I. split.
+    + rewrite (inv_last _ _ I). unfold run in Hl. rewrite (epoch_fst ops (init c) [] Hl).
+      reflexivity.
+    + rewrite (inv_next _ _ I). lia.
+Qed.
+
+(* the log as a function of the acknowledged writes and their numbers *)
+Definition log_of (qs : list N) (ws : list wop) : list wentry := wentries (combine qs ws).
+
+Lemma combine_fst_snd : forall (A B : Type) (l : list (A * B)), combine (map fst l) (map snd l) = l.
+Proof. intros A B l. induction l as [|[a b] l IH]; cbn [map combine fst snd]; congruence. Qed.
+
+(* the log holds, in order, the entries of the acknowledged writes, each write's entries
+   stamped with the write's number: numbers are non-decreasing along the log and two entries
+   have the same number only inside one batch (the per-write numbers increase strictly) *)
+Theorem C08_log_order : forall c ops,
+  lost_log (run c ops) = false ->
+  concat (wal_files (run c ops)) = log_of (ack_seqs (init c) ops) (acked (init c) ops) /\
+  StronglySorted N.lt (ack_seqs (init c) ops) /\
+  StronglySorted (fun a b => w_seq a <= w_seq b) (concat (wal_files (run c ops))).
+Proof.
+  intros c ops Hl. pose proof (Inv_run c ops) as I. split; [|split].
+  - rewrite (inv_wal _ _ I). unfold log_of, run in *.
+    pose proof (epoch_fst ops (init c) [] Hl) as E1. pose proof (epoch_snd ops (init c) [] Hl) as E2.
+    cbn [map app] in E1, E2. rewrite <- E1, <- E2, combine_fst_snd. reflexivity.
+  - apply C08_monotone. exact Hl.
+  - rewrite (inv_wal _ _ I). apply wentries_sorted. exact (inv_sorted _ _ I).
+Qed.
+
+Theorem C08_overflow_rejects : forall s,
+  MaxSeq <= wal_next s ->
+  (forall k v, put s k v = (s, WrOverflow)) /\
+  (forall k, del s k = (s, WrOverflow)) /\
+  (forall ops, ops <> [] -> apply_batch s ops = (s, WrOverflow)) /\
+  (forall ops, buffer_ops ops <> [] -> tx_commit s ops = (s, WrOverflow)).
+Proof.
+  intros s H. assert (M : (MaxSeq <=? wal_next s) = true) by (apply N.leb_le; exact H).
+  repeat split.
+  - intros k v. rewrite put_as_batch. apply apply_batch_overflow; [exact M|discriminate].
+  - intros k. rewrite del_as_batch. apply apply_batch_overflow; [exact M|discriminate].
+  - intros ops Hne. apply apply_batch_overflow; assumption.
+  - intros ops Hne. rewrite tx_commit_as_batch. apply apply_batch_overflow; assumption.
+Qed.
+
+(* known-finding class: after a recovery that ran out of memtable budget the log is set
+   aside and the numbering restarts at 1 *)
+Module C08_lostlog.
+  Definition c0 := mkCfg 1 1.
+  Definition prog : list op := [OPut [1] [10]; OPut [2] [20]; OReopen; OPut [3] [30]].
+End C08_lostlog.
+
+Theorem C08_lostlog_refuted : exists c ops,
+  lost_log (run c ops) = true /\
+  ack_seqs (init c) ops = [1; 2; 1] /\
+  ~ StronglySorted N.lt (ack_seqs (init c) ops).
+Proof.
+  exists C08_lostlog.c0, C08_lostlog.prog.
+  assert (E : ack_seqs (init C08_lostlog.c0) C08_lostlog.prog = [1; 2; 1])
+    by (vm_compute; reflexivity).
+  split; [vm_compute; reflexivity|]. split; [exact E|].
+  rewrite E. intros S. inversion S as [|? ? _ F]; subst.
+  inversion F as [|? ? _ F']; subst. inversion F' as [|? ? C _]; subst. lia.
+Qed.
+
+(* the same run loses acknowledged data: C01 needs the hypothesis lost_log = false *)
+Example C01_lostlog_refuted :
+  lost_log (run C08_lostlog.c0 C08_lostlog.prog) = true /\
+  get (run C08_lostlog.c0 C08_lostlog.prog) [1] = None /\
+  spec_get (acked (init C08_lostlog.c0) C08_lostlog.prog) [1] = Some [10].
+Proof. vm_compute. repeat split; reflexivity. Qed.
